@@ -141,6 +141,8 @@ def cases_random(seed, fam=None, policy=None, behaviour=None, variants=True, laz
     scn = families.random_scenario(rng, **(fam or {}))
     vs = list(families.variants(scn, lazy=lazy, cache=cache)) if variants else [scn]
     for v in vs:
+        if (behaviour or {}).get("jump"):
+            v = dict(v, until=v["until"] + behaviour["jump"])  # the run resumes at time `jump` after every simulator's first step
         yield {"id": [seed, v["lazy"], v["cache"]], "scn": v, "seed": seed,
                "behaviour": dict(behaviour or {}), "policy": dict(policy or {})}
 
